@@ -8571,7 +8571,10 @@ impl<'a> Parser<'a> {
                 match next_token.token {
                     Token::Word(w) => modifiers.push(w.to_string()),
                     Token::Number(n, _) => modifiers.push(n),
-                    Token::SingleQuotedString(s) => modifiers.push(s),
+                    // Keep the quotes, like a quoted `Word` above: the modifiers are printed verbatim.
+                    Token::SingleQuotedString(s) => {
+                        modifiers.push(Value::SingleQuotedString(s).to_string())
+                    }
 
                     Token::Comma => {
                         continue;
